@@ -107,7 +107,11 @@ theorem supers_noPanic {g : Graph} (inv : Inv g) :
       · rw [h]; intro hc; cases hc
       · rw [h]; simp only [hds]; intro hc; cases hc
     · simp only [hid, ↓reduceIte]
-      exact segments_noPanic inv [] s id (!after) (fun _ => hs) p
+      apply segments_noPanic inv []
+      intro _
+      split
+      · exact inv.root
+      · exact hs
   | cons i rest' ih =>
     intro s id after hs p
     unfold supers
@@ -117,7 +121,11 @@ theorem supers_noPanic {g : Graph} (inv : Inv g) :
       · rw [h]; intro hc; cases hc
       · rw [h]; simp only [hds]; exact ih q i true hq p
     · simp only [hid, ↓reduceIte]
-      exact segments_noPanic inv (i :: rest') s id (!after) (fun _ => hs) p
+      apply segments_noPanic inv (i :: rest')
+      intro _
+      split
+      · exact inv.root
+      · exact hs
 
 theorem importOne_noPanic {g : Graph} (inv : Inv g) (s : Nat) (hs : s < g.scopes.length) (p : Path)
     (hp : p ≠ []) : NoPanic (importOne g s p) := by
